@@ -3,6 +3,7 @@ package interp
 // One persistent solver process spoken to in SMT-LIB2 text.
 
 import (
+	"sync/atomic"
 	"bufio"
 	"fmt"
 	"io"
@@ -21,6 +22,8 @@ type SolverStats struct {
 	Errors  int
 	TimeS   float64
 }
+
+var solverLogSeq int64
 
 type Solver struct {
 	name      string
@@ -69,7 +72,10 @@ func NewSolver(name string, timeoutMs int) (*Solver, error) {
 	}
 	s := &Solver{name: name, timeoutMs: timeoutMs, cmd: cmd, in: in, out: bufio.NewReaderSize(outp, 1<<16), defined: map[string]string{}}
 	if f := os.Getenv("GOSYMX_SMTLOG"); f != "" {
-		w, _ := os.OpenFile(f, os.O_APPEND|os.O_CREATE|os.O_WRONLY, 0644)
+		// one file per solver process: each is a complete incremental script (with the answers
+		// as "; => ..." comments) that tools/solverdiff.py replays through other solvers
+		n := atomic.AddInt64(&solverLogSeq, 1)
+		w, _ := os.OpenFile(fmt.Sprintf("%s.%d.%d.smt2", f, os.Getpid(), n), os.O_APPEND|os.O_CREATE|os.O_WRONLY, 0644)
 		s.log = w
 	}
 	if name == "cvc5" {
